@@ -38,7 +38,7 @@ spec('inv_ikesa_d', {'s': S, 'd': Int}, Bool,
      'and 0 <= s.my_msg_id < 2 ** 32 - 1 + d and 0 <= s.peer_msg_id < 2 ** 32 - 1 '
      'and len(s.my_spi) == 8 and len(s.peer_spi) == 8 '
      'and implies(req_sent(s.state), s.request is not None and s.request.message_id + d == s.my_msg_id '
-     '    and not s.request.is_response and wire_ok(s.request) and 1 <= s.retransmissions <= 4) '
+     '    and not s.request.is_response and wire_ok(s.request)) '
      'and implies(s.my_crypto is not None, inv_crypto(s.my_crypto)) '
      'and implies(s.peer_crypto is not None, inv_crypto(s.peer_crypto)) '
      'and implies(s.state != 0 and s.state != 2 and s.state != 21, '
